@@ -248,6 +248,10 @@ func c14Sweep(seed uint64, tier string, build string, emit func(op, obs string),
 					}
 					for rep := 0; rep < reps; rep++ {
 						c.args = nil
+						c.ctx = ctx
+						if rep == 1 || (skip == 2 && rep == 0) {
+							c.ctx = nil // no context given to the …Context verbs: the caller is the same
+						}
 						if rep == 1 && call.recv != "b" {
 							c.args = []any{"err", c09Err} // an error that carries a stack trace
 						}
